@@ -1,52 +1,94 @@
 import AsynqModel.Lib.Generator
 import AsynqModel.Proofs.Generator
 import AsynqModel.Proofs.GeneratorRel
+import AsynqModel.Proofs.GeneratorNest
 /-!
 # C17  Async generators deliver their Values in order, and only those
 
 Theorems about the model `AsynqModel.Generator` of asynq/generator.py, for every generator body (any list of
 `await` / `value v` steps), every `n` and every history of caller operations.
 
+Scope: the statement is about bodies WITHOUT a `Value(END_OF_GENERATOR)` item (`noMarker b`, an explicit hypothesis of
+the theorems about delivered Values).  For a body with such an item the clauses "all the Values are returned" and
+"END_OF_GENERATOR never appears in the result" contradict each other (`C17_marker_payload_unsatisfiable`), so no
+implementation satisfies the statement there; the model has that item (`Step.valueEnd`) and
+`C17_marker_payload_behaviour` records what the code does with it (the item is dropped, and `take_first` then returns
+more than `n` Values because `enumerate` counts tasks).
+
 History: `take_first(gen, 0)` used to be `list_of_generator(gen)` (`i == n - 1` is never true for `n = 0`); this check
-found it, /repo fixed it (`if n <= 0: return ret` before the loop), and the model has the fixed code.  All clauses
-now hold without side conditions.
+found it, /repo fixed it (`if n <= 0: return ret` before the loop), and the model has the fixed code.
 -/
 namespace AsynqModel.Generator
 
-/-- `list_of_generator` of a fresh generator returns exactly its Values in program order, having pulled every
-    item of the body and run the underlying generator to its end - for every body -/
-theorem C17_list (b : Body) :
-    (listOf (init b)).2 = .lst ((values b).map .val) ∧ (listOf (init b)).1.rest = [] ∧
+/-- `list_of_generator` of a fresh generator returns exactly the payloads of its Values in program order, having
+    pulled every item of the body and run the underlying generator to its end - for every body without a marker
+    payload -/
+theorem C17_list (b : Body) (hm : noMarker b = true) :
+    (listOf (init b)).2 = .lst (payloads b) ∧ (listOf (init b)).1.rest = [] ∧
       (listOf (init b)).1.pulled = b.length ∧ (listOf (init b)).1.stopped = true := by
-  obtain ⟨lt', p', e, hp, _⟩ := listOf_spec b 0 false none [] rfl (by simp)
+  obtain ⟨lt', p', e, hp, _⟩ := listOf_spec b 0 false none [] hm rfl (by simp)
   have : init b = ⟨b, 0, false, none, []⟩ := rfl
-  rw [this, e]
+  rw [this, e, payloads_eq_values b hm]
   simp [hp]
 
-/-- for every body and every `n`: `take_first(gen, n)` returns the first `n` Values (all of them if there are
-    fewer, none for `n = 0`) and leaves the underlying generator exactly behind the n-th Value (`dropValues n b`):
-    nothing after it has been pulled, and the generator has been run to its end only if `n ≥ 1` and it has fewer
-    than `n` Values -/
-theorem C17_take (b : Body) (n : Nat) :
-    (takeFirst (init b) n).2 = .lst (((values b).take n).map .val) ∧
+/-- for every body without a marker payload and every `n`: `take_first(gen, n)` returns the first `n` Values (all of
+    them if there are fewer, none for `n = 0`) and leaves the underlying generator exactly behind the n-th Value
+    (`dropValues n b`, see `C17_take_stops_at_value`): nothing after it has been pulled, and the generator has been
+    run to its end only if `n ≥ 1` and it has fewer than `n` Values -/
+theorem C17_take (b : Body) (n : Nat) (hm : noMarker b = true) :
+    (takeFirst (init b) n).2 = .lst ((payloads b).take n) ∧
       (takeFirst (init b) n).1.rest = dropValues n b ∧
       (takeFirst (init b) n).1.pulled + (dropValues n b).length = b.length ∧
-      (takeFirst (init b) n).1.stopped = decide ((values b).length < n) := by
+      (takeFirst (init b) n).1.stopped = decide ((payloads b).length < n) := by
+  rw [payloads_eq_values b hm, ← List.map_take, List.length_map]
   cases n with
   | zero => simp [takeFirst_zero, init, dropValues]
   | succ m =>
-    obtain ⟨lt', p', e, hp, _⟩ := takeFirst_spec b m 0 false none [] rfl (by simp)
+    obtain ⟨lt', p', e, hp, _⟩ := takeFirst_spec b m 0 false none [] hm rfl (by simp)
     have : init b = ⟨b, 0, false, none, []⟩ := rfl
     rw [this, e]
     simp at hp ⊢
     exact hp
 
-/-- `take_first(gen, 0)` returns `[]` and leaves the generator completely untouched - in every state, also while a
-    previously returned task is uncomputed (the guard lives in `send()`, which is never reached) -/
-theorem C17_take_zero (s : St) : takeFirst s 0 = (s, .lst []) := takeFirst_zero s
+/-- "without consuming more of the generator than needed": if the body has at least `n ≥ 1` Values, what
+    `take_first(gen, n)` pulled is a prefix of the body that ENDS with the n-th Value - the last item pulled from the
+    underlying generator is the last Value returned -/
+theorem C17_take_stops_at_value (b : Body) (m : Nat) (hm : noMarker b = true) (h : m < (payloads b).length) :
+    ∃ pre v, b = pre ++ .value v :: (takeFirst (init b) (m + 1)).1.rest ∧
+      (takeFirst (init b) (m + 1)).1.pulled = pre.length + 1 ∧
+      (takeFirst (init b) (m + 1)).2 = .lst (payloads pre ++ [.val v]) := by
+  obtain ⟨hres, hrest, hpos, _⟩ := C17_take b (m + 1) hm
+  rw [payloads_eq_values b hm, List.length_map] at h
+  obtain ⟨pre, v, e, hl, hv⟩ := dropValues_split b hm m h
+  have hmp : noMarker pre = true := by
+    have : noMarker (pre ++ .value v :: dropValues (m + 1) b) = true := by rw [← e]; exact hm
+    clear e hl
+    induction pre with
+    | nil => rfl
+    | cons x r ih => cases x <;> simp_all [noMarker]
+  have hvals : values b = values pre ++ v :: values (dropValues (m + 1) b) := by
+    have : ∀ (p q : Body), values (p ++ q) = values p ++ values q := by
+      intro p q; induction p with
+      | nil => rfl
+      | cons x r ih => cases x <;> simp [values, ih]
+    conv => lhs; rw [e]
+    rw [this]; rfl
+  refine ⟨pre, v, by rw [hrest]; exact e, ?_, ?_⟩
+  · have hlen : b.length = pre.length + 1 + (dropValues (m + 1) b).length := by
+      conv => lhs; rw [e]
+      simp; omega
+    omega
+  · rw [hres, payloads_eq_values b hm, payloads_eq_values pre hmp, hvals, ← List.map_take]
+    have key : ∀ (l r : List Nat) (x : Nat), (l ++ x :: r).take (l.length + 1) = l ++ [x] := by
+      intro l r x; induction l with
+      | nil => simp
+      | cons y t ih => simpa using ih
+    have : (values pre ++ v :: values (dropValues (m + 1) b)).take (m + 1) = values pre ++ [v] := by
+      rw [← hl]; exact key _ _ _
+    rw [this]; simp
 
 /-- END_OF_GENERATOR never appears in the result of `take_first` or `list_of_generator` - for every state of the
-    generator whatsoever and every `n` (including 0) -/
+    generator whatsoever (any body, also with marker payloads) and every `n` (including 0) -/
 theorem C17_no_marker (s : St) (n : Nat) :
     (takeFirst s n).2.hasMarker = false ∧ (listOf s).2.hasMarker = false :=
   ⟨by cases n with
@@ -55,7 +97,8 @@ theorem C17_no_marker (s : St) (n : Nat) :
     listLoop_noMarker _ s [] rfl⟩
 
 /-- a task that `next()` returned uncomputed arms the guard, and while it is not computed every way of advancing
-    the generator (`next`, `take_first` with `n ≥ 1`, `list_of_generator`) raises RuntimeError and changes nothing -/
+    the generator (`next`, `take_first` with `n ≥ 1`, `list_of_generator`) raises RuntimeError and changes nothing -
+    for every state (any body) -/
 theorem C17_guard (s : St) :
     ((next s).2 = .fut none → (next s).1.blocked = true) ∧
     (s.blocked = true → next s = (s, .raised .runtimeError) ∧ listOf s = (s, .raised .runtimeError) ∧
@@ -73,15 +116,19 @@ theorem C17_guard (s : St) :
       | cons x r =>
         cases x with
         | value v => simp [next, send, blocked_eq, hb, getOneValue]
+        | valueEnd => simp [next, send, blocked_eq, hb, getOneValue]
         | await bb => simp [next, send, blocked_eq, hb, getOneValue]; simp [blockedBy]
 
 /-- the guard stays armed until the task is COMPUTED: a task returned by `next()` that has started and is parked
-    on a future that needs a batch flush (`startTask` gives `none`) is not computed - `last_task` is untouched by
-    `_send_inner`, so every way of advancing the generator is still refused (RuntimeError; `take_first(gen, 0)` returns
-    `[]`) and changes nothing; and if the task did run to its end before the sibling, it is computed exactly as
-    `_send_inner` run to completion computes it - for every state, every k and every first-await kind -/
+    on a future that needs a batch flush (`startTask` gives `none`, which happens exactly if its first await or one
+    of the awaits before its Value needs a flush) is not computed - `last_task` is untouched by `_send_inner`, so every
+    way of advancing the generator is still refused (RuntimeError; `take_first(gen, 0)` returns `[]`) and changes
+    nothing; and if the task did run to its end before the sibling, it is computed exactly as `_send_inner` run to
+    completion computes it - for every state, every k and every first-await kind.  `hl` holds in every reachable
+    state (`C17_reachable`) and cannot be dropped (see the `example` below). -/
 theorem C17_guard_started (s : St) (k : Nat) (b : Bool) (hk : s.futs[k]? = some (.pending b))
     (hl : s.lastTask = some (.handle k)) :
+    ((startTask s b).2 = none ↔ (b || leadBlock s.rest) = true) ∧
     (∀ s1, startTask s b = (s1, none) →
       s1.blocked = true ∧ s1.lastTask = s.lastTask ∧ s1.futs = s.futs ∧
       (∀ a : Adv, stepBasic s1 a.toOp = (s1, refused a)) ∧ sendInner s1 = sendInner s) ∧
@@ -89,10 +136,30 @@ theorem C17_guard_started (s : St) (k : Nat) (b : Bool) (hk : s.futs[k]? = some 
   have hsp := startTask_spec b s.rest s.pulled s.stopped s.lastTask s.futs
   have hs : (⟨s.rest, s.pulled, s.stopped, s.lastTask, s.futs⟩ : St) = s := rfl
   rw [hs] at hsp
-  refine ⟨fun s1 h1 => ?_, hsp.1⟩
-  obtain ⟨hl1, hf1, hsi⟩ := hsp.2 s1 h1
-  have hb1 : s1.blocked = true := by simp [St.blocked, hl1, hf1, hl, hk]
-  exact ⟨hb1, hl1, hf1, fun a => adv_blocked s1 a hb1, hsi⟩
+  refine ⟨?_, fun s1 h1 => ?_, hsp.1⟩
+  · have hp := startTask_parks s b
+    cases h : (startTask s b).2 with
+    | none =>
+      rw [h] at hp
+      have : (b || leadBlock s.rest) = true := by simpa using hp.symm
+      simp [this]
+    | some x =>
+      rw [h] at hp
+      have : (b || leadBlock s.rest) = false := by simpa using hp.symm
+      simp [this]
+  · obtain ⟨hl1, hf1, hsi⟩ := hsp.2 s1 h1
+    have hb1 : s1.blocked = true := by simp [St.blocked, hl1, hf1, hl, hk]
+    exact ⟨hb1, hl1, hf1, fun a => adv_blocked s1 a hb1, hsi⟩
+
+/-- in every state a history reaches (any operations, body without marker payload): position accounting, the
+    underlying generator is stopped only at its end, and an uncomputed task the caller holds is the one in `last_task`
+    (the hypothesis `hl` of `C17_guard_started`) - so at most one task is ever uncomputed -/
+theorem C17_reachable (b : Body) (hm : noMarker b = true) (ops : List Op) :
+    let s := finalState (init b) ops
+    s.pulled + s.rest.length = b.length ∧ (s.stopped = true → s.rest = []) ∧
+      ∀ k bb, s.futs[k]? = some (.pending bb) → s.lastTask = some (.handle k) := by
+  obtain ⟨w', h⟩ := rel_final b.length ops (watchInit b) (init b) (rel_init b hm)
+  exact ⟨h.pos, h.wf, h.last⟩
 
 /-- once `next()` has raised StopIteration it raises StopIteration forever, without touching the generator -/
 theorem C17_exhausted (s : St) (h : (next s).2 = .raised .stopIteration) (k : Nat) :
@@ -119,28 +186,90 @@ theorem C17_exhausted (s : St) (h : (next s).2 = .raised .stopIteration) (k : Na
   exact key _ h1.1 h1.2
 
 /-- repeated `take_first` calls (any `n`, including 0) on one generator continue where the previous call stopped:
-    the results are the consecutive chunks of the Values - for every body and every list of `n`s -/
-theorem C17_take_repeat (b : Body) (ns : List Nat) :
-    takeMany (init b) ns = (chunks (values b) ns).map (fun c => .lst (c.map .val)) :=
-  takeMany_spec ns b 0 false none [] rfl (by simp)
+    the results are the consecutive chunks of the Values, and after the calls the generator stands exactly behind its
+    (Σ ns)-th Value - for every body without marker payload and every list of `n`s -/
+theorem C17_take_repeat (b : Body) (ns : List Nat) (hm : noMarker b = true) :
+    takeMany (init b) ns = (chunks (values b) ns).map (fun c => .lst (c.map .val)) ∧
+    (takeManySt (init b) ns).rest = dropValues ns.sum b ∧
+    (takeManySt (init b) ns).pulled + (dropValues ns.sum b).length = b.length := by
+  have := takeMany_spec ns b 0 false none [] hm rfl (by simp)
+  simpa [init] using this
 
-/-- nested generators (an outer generator iterating the inner one as documented and re-yielding its Values, `k`
-    levels deep) deliver exactly the Values of the innermost body -/
-theorem C17_nested (k : Nat) (b : Body) :
-    values (wrapN k b) = values b ∧ (listOf (init (wrapN k b))).2 = .lst ((values b).map .val) := by
-  refine ⟨values_wrapN k b, ?_⟩
-  rw [(C17_list (wrapN k b)).1, values_wrapN]
+/-- what a nested generator IS: the documented consumer loop (`for task in inner: value = yield task; if value is
+    END_OF_GENERATOR: continue; yield Value(value)`), run as the Python generator of an outer `_AsyncGenerator` over the
+    model of the inner generator (`outerResume`: next(inner) = `send`, the yielded inner task is computed by
+    `sendInner`, it parks its awaiter iff `startTask` parks), yields exactly the steps `wrap b` and then ends - for
+    every inner body (also with marker payloads, which the loop skips) -/
+theorem C17_nested_loop (b : Body) : outerBody (2 * b.length + 1) (init b) .atFor = wrap b :=
+  ((outerBody_spec b.length b (Nat.le_refl _) 0 false [] _ (by simp) (Nat.le_refl _)).1 none rfl)
 
-/-- **C17 as a whole**: for every body and every history of caller operations (next / compute any returned future /
-    take_first n for any n / list_of_generator / `par`: a returned future yielded together with a sibling that advances
-    the generator while that future has started and is parked - in any order, including advancing while a task is
-    uncomputed and after exhaustion), the observations of the model are accepted by the observer `spec` - the same Boolean function
-    the check evaluates on the observations of the real code -/
-theorem C17_spec_holds (b : Body) (ops : List Op) : spec b (run (init b) ops) = true := by
-  obtain ⟨w', hw⟩ := watchRun_ok b.length ops (watchInit b) (init b) (rel_init b)
-  simp [spec, hw]
+/-- nested generators (`k` levels of that loop) deliver exactly the Values of the innermost body: the nested body
+    has no marker payload, the same payloads, and `list_of_generator` / `take_first` return them -/
+theorem C17_nested (k : Nat) (b : Body) (hm : noMarker b = true) (n : Nat) :
+    noMarker (wrapN k b) = true ∧ payloads (wrapN k b) = payloads b ∧
+      (listOf (init (wrapN k b))).2 = .lst (payloads b) ∧
+      (takeFirst (init (wrapN k b)) n).2 = .lst ((payloads b).take n) := by
+  have hw := noMarker_wrapN k b hm
+  have hp : payloads (wrapN k b) = payloads b := by
+    rw [payloads_eq_values _ hw, payloads_eq_values _ hm, values_wrapN]
+  refine ⟨hw, hp, ?_, ?_⟩
+  · rw [(C17_list (wrapN k b) hw).1, hp]
+  · rw [(C17_take (wrapN k b) n hw).1, hp]
 
-/-! non-vacuity -/
+/-- **C17 as a whole**: for every body without marker payload and every history of caller operations (next / compute
+    any returned future / take_first n for any n / list_of_generator / `par`: a returned future yielded together with a
+    sibling that advances the generator while that future has started and is parked - in any order, including
+    advancing while a task is uncomputed and after exhaustion), the observations of the model are accepted by the
+    observer `spec` - the same Boolean function the check evaluates on the observations of the real code -/
+theorem C17_spec_holds (b : Body) (hm : noMarker b = true) (ops : List Op) : spec b (run (init b) ops) = true := by
+  obtain ⟨w', hw⟩ := watchRun_ok b.length ops (watchInit b) (init b) (rel_init b hm)
+  simp [spec, hw, hm]
+
+/-- why `noMarker` is a hypothesis and not a defect: for a body with a `Value(END_OF_GENERATOR)` item NO result
+    satisfies both "list_of_generator returns all the Values" and "END_OF_GENERATOR does not appear in the result" -/
+theorem C17_marker_payload_unsatisfiable (b : Body) (h : noMarker b = false) (r : Res) :
+    ¬ (r = .lst (payloads b) ∧ r.hasMarker = false) := by
+  rintro ⟨rfl, h2⟩
+  have : (payloads b).any (· == .endMarker) = true := by
+    clear h2
+    induction b with
+    | nil => simp [noMarker] at h
+    | cons x t ih =>
+      cases x with
+      | valueEnd => simp [payloads]
+      | await bb => simpa [payloads] using ih (by simpa [noMarker] using h)
+      | value v =>
+        have := ih (by simpa [noMarker] using h)
+        simp only [payloads, List.any_cons, this, Bool.or_true]
+  simp [Res.hasMarker, this] at h2
+
+/-- ... and what the code (as modelled, confirmed by the correspondence run) does with such an item: it is dropped
+    from the results, a manual consumer receives it as an END_OF_GENERATOR that does not end the generator, and because
+    `enumerate` counts tasks `take_first(gen, 2)` overruns (three Values, generator exhausted) -/
+theorem C17_marker_payload_behaviour :
+    (listOf (init [.value 1, .valueEnd, .value 2, .value 3])).2 = .lst [.val 1, .val 2, .val 3] ∧
+    (takeFirst (init [.value 1, .valueEnd, .value 2, .value 3]) 2).2 = .lst [.val 1, .val 2, .val 3] ∧
+    (takeFirst (init [.value 1, .valueEnd, .value 2, .value 3]) 2).1.stopped = true ∧
+    (run (init [.valueEnd, .await true, .valueEnd, .value 2]) [.next, .next, .compute 1, .next]).map (·.res) =
+      [.fut (some .endMarker), .fut none, .item .endMarker, .fut (some (.val 2))] := by decide
+
+/-- adequacy of the model's loops: the fuel that makes `listOf` / `takeFirst` structurally recursive is never used up
+    (the `.raised .other` of the out-of-fuel branch is never the answer) - for every state whatsoever and every body,
+    also with marker payloads.  (`sendInner`/`startTask`: `sendInnerLoop_spec`, `startLoop_spec` are unconditional.) -/
+theorem C17_loops_within_fuel (s : St) (n : Nat) :
+    (listOf s).2 ≠ .raised .other ∧ (takeFirst s n).2 ≠ .raised .other := by
+  refine ⟨listLoop_within_fuel _ s [] (Nat.lt_succ_self _), ?_⟩
+  cases n with
+  | zero => simp [takeFirst_zero]
+  | succ m => simpa [takeFirst] using takeLoop_within_fuel _ (m + 1) 0 s [] (Nat.lt_succ_self _)
+
+/-- BY CONSTRUCTION of the model (`if n <= 0: return ret` is the first branch of `takeFirst`): `take_first(gen, 0)`
+    returns `[]` and leaves the generator untouched in every state, also while a previously returned task is
+    uncomputed.  The content of this clause is the correspondence run (take 0 at every point of scripted histories)
+    and the observer clause `take-zero`. -/
+theorem C17_take_zero (s : St) : takeFirst s 0 = (s, .lst []) := takeFirst_zero s
+
+/-! ## non-vacuity -/
 -- a history that exercises the guard, a task with consecutive awaits, END_OF_GENERATOR, repeated take_first
 example : spec [.await true, .value 1, .value 2, .await true, .await true, .value 3, .await true]
     (run (init [.await true, .value 1, .value 2, .await true, .await true, .value 3, .await true])
@@ -150,25 +279,63 @@ example : spec [.await true, .value 1, .value 2, .await true, .await true, .valu
 example : (run (init [.await true, .value 1]) [.next, .next, .take 1, .compute 0]).map (·.res) =
     [.fut none, .raised .runtimeError, .raised .runtimeError, .item (.val 1)] := by decide
 example : (run (init [.value 1, .await true]) [.next, .next, .compute 1, .next, .next]).map (·.res) =
-    [.fut (some 1), .fut none, .item .endMarker, .raised .stopIteration, .raised .stopIteration] := by decide
+    [.fut (some (.val 1)), .fut none, .item .endMarker, .raised .stopIteration, .raised .stopIteration] := by decide
 example : (takeFirst (init [.await true, .value 1, .value 2, .await true, .value 3]) 2).2 = .lst [.val 1, .val 2] ∧
     (takeFirst (init [.await true, .value 1, .value 2, .await true, .value 3]) 2).1.pulled = 3 := by decide
 example : (run (init [.await true, .value 1]) [.next, .take 0, .compute 0, .take 0, .take 1]).map (·.res) =
     [.fut none, .lst [], .item (.val 1), .lst [], .lst []] := by decide
+-- C17_take_stops_at_value: hypothesis satisfiable, the prefix is non-trivial
+example : (payloads [.await true, .value 1, .await false, .value 2, .value 3]).length > 1 ∧
+    (takeFirst (init [.await true, .value 1, .await false, .value 2, .value 3]) 2).1.rest = [.value 3] := by decide
+-- C17_guard_started: hk and hl hold in a reachable state, both branches of startTask are taken
+example : let s := (finalState (init [.await true, .value 1]) [.next]);
+    s.futs[0]? = some (.pending true) ∧ s.lastTask = some (.handle 0) ∧ (startTask s true).2 = none := by decide
+example : let s := (finalState (init [.await false, .value 1]) [.next]);
+    s.futs[0]? = some (.pending false) ∧ s.lastTask = some (.handle 0) ∧ (startTask s false).2 = some (.val 1) := by
+  decide
+-- ... and `hl` cannot be dropped on arbitrary states: a pending future that is not `last_task` does not arm the guard
+example : ∃ (s : St) (k : Nat) (b : Bool), s.futs[k]? = some (.pending b) ∧
+    ¬ (∀ s1, startTask s b = (s1, none) → s1.blocked = true) :=
+  ⟨{ rest := [], pulled := 0, stopped := false, lastTask := none, futs := [.pending true] }, 0, true, by decide, by
+    intro h; have := h _ rfl; revert this; decide⟩
+-- C17_exhausted: the premise is reached through a trailing await (END_OF_GENERATOR, then StopIteration)
+example : (next (finalState (init [.value 1, .await true]) [.next, .next, .compute 1])).2 = .raised .stopIteration := by
+  decide
+-- C17_take_repeat: chunks with a 0 and an overshoot
+example : takeMany (init [.value 1, .await true, .value 2, .value 3, .await false]) [1, 0, 5, 1] =
+    [.lst [.val 1], .lst [], .lst [.val 2, .val 3], .lst []] := by decide
+-- C17_nested_loop is about `wrap` and nothing else: dropping the awaits (which preserves the Values) is not what the loop yields
+example : outerBody 7 (init [.await true, .await false, .value 1]) .atFor = [.await true, .value 1] ∧
+    wrap [.value 1, .await true] = [.await false, .value 1, .await true] ∧
+    wrap [.value 1, .await true] ≠ [.value 1] := by decide
+example : wrapN 1 [.await true, .value 1, .valueEnd, .await false] =
+      [.await true, .value 1, .await false, .await false] ∧
+    wrapN 2 [.await true, .value 1, .valueEnd, .await false] = [.await true, .value 1, .await false] := by decide
 -- the observer is not trivially true: it rejects END_OF_GENERATOR in a result, a lost Value, over-consumption,
 -- a missing RuntimeError, and the old behaviour of take_first(gen, 0)
-example : spec [.value 1, .await true] [{ op := .list, res := .lst [.val 1, .endMarker], sib := none, pos := 2, fin := true, bad := 0 }] = false := by
+def ob (op : Op) (res : Res) (pos : Nat) (fin : Bool) (sib : Option (Bool × Res) := none) : Obs :=
+  { op := op, res := res, sib := sib, pos := pos, fin := fin, bad := 0 }
+example : spec [.value 1, .await true] [ob .list (.lst [.val 1, .endMarker]) 2 true] = false := by decide
+example : spec [.value 1, .value 2] [ob (.take 2) (.lst [.val 1]) 2 false] = false := by decide
+example : spec [.value 1, .value 2] [ob (.take 1) (.lst [.val 1]) 2 false] = false := by decide
+example : spec [.await true, .value 1] [ob .next (.fut none) 1 false, ob (.take 1) (.lst [.val 1]) 2 false] = false := by
   decide
-example : spec [.value 1, .value 2] [{ op := .take 2, res := .lst [.val 1], sib := none, pos := 2, fin := false, bad := 0 }] = false := by
-  decide
-example : spec [.value 1, .value 2] [{ op := .take 1, res := .lst [.val 1], sib := none, pos := 2, fin := false, bad := 0 }] = false := by
-  decide
-example : spec [.await true, .value 1]
-    [{ op := .next, res := .fut none, sib := none, pos := 1, fin := false, bad := 0 },
-     { op := .take 1, res := .lst [.val 1], sib := none, pos := 2, fin := false, bad := 0 }] = false := by decide
-example : spec [.value 1] [{ op := .take 0, res := .lst [.val 1], sib := none, pos := 1, fin := true, bad := 0 }] = false := by
-  decide
-example : spec [.await true] [{ op := .take 0, res := .lst [], sib := none, pos := 1, fin := true, bad := 0 }] = false := by decide
+example : spec [.value 1] [ob (.take 0) (.lst [.val 1]) 1 true] = false := by decide
+example : spec [.await true] [ob (.take 0) (.lst []) 1 true] = false := by decide
+-- wrong order, list without running to the end, a task after exhaustion, StopIteration only once, END although a Value
+-- follows the awaits, a task that consumed one Value too many, take_first n > values that did not finish
+example : spec [.value 1, .value 2] [ob (.take 2) (.lst [.val 2, .val 1]) 2 false] = false := by decide
+example : spec [.value 1, .value 2] [ob .list (.lst [.val 1, .val 2]) 2 false] = false := by decide
+example : spec [.value 1] [ob .list (.lst [.val 1]) 1 true, ob .next (.fut none) 1 true] = false := by decide
+example : spec [] [ob .next (.raised .stopIteration) 0 true, ob .next (.raised .runtimeError) 0 true] = false := by decide
+example : spec [.await true, .await true, .value 1] [ob .next (.fut none) 1 false, ob (.compute 0) (.item .endMarker) 3 true]
+    = false := by decide
+example : spec [.await true, .value 1, .value 2] [ob .next (.fut none) 1 false, ob (.compute 0) (.item (.val 1)) 3 false]
+    = false := by decide
+example : spec [.value 1, .await true] [ob (.take 2) (.lst [.val 1]) 2 false] = false := by decide
+-- (audit) an unknown future whose "computation" moved the generator is rejected
+example : spec [.value 1] [ob (.compute 5) (.raised .other) 77 true] = false := by decide
+example : spec [.value 1] [ob (.compute 5) (.raised .other) 0 false] = true := by decide
 -- two consumers: the task is parked on a blocking await when the sibling advances (refused), resp. already computed
 example : (run (init [.await true, .value 1, .await false, .value 2]) [.next, .par 0 .next, .next, .par 1 .next]).map
       (fun o => (o.res, o.sib)) =
@@ -176,8 +343,22 @@ example : (run (init [.await true, .value 1, .await false, .value 2]) [.next, .p
      (.fut none, none), (.item (.val 2), some (true, .raised .stopIteration))] := by decide
 -- the observer rejects an advance that succeeded while the task was started but not computed
 example : spec [.await true, .value 1, .value 2]
-    [{ op := .next, res := .fut none, sib := none, pos := 1, fin := false, bad := 0 },
-     { op := .par 0 .next, res := .item (.val 1), sib := some (false, .fut (some 2)), pos := 3, fin := false, bad := 0 }]
+    [ob .next (.fut none) 1 false, ob (.par 0 .next) (.item (.val 1)) 3 false (some (false, .fut (some (.val 2))))]
     = false := by decide
+-- (audit) ... also when the observation CLAIMS the task was computed although it must be parked (blocking await),
+-- and a task reported as parked although none of its awaits needs a flush
+example : spec [.await true, .value 1, .value 2]
+    [ob .next (.fut none) 1 false, ob (.par 0 .next) (.item (.val 1)) 3 false (some (true, .fut (some (.val 2))))]
+    = false := by decide
+example : spec [.await false, .value 1, .value 2]
+    [ob .next (.fut none) 1 false, ob (.par 0 .next) (.item (.val 1)) 2 false (some (false, .raised .runtimeError))]
+    = false := by decide
+example : spec [.await false, .await true, .value 1, .value 2]
+    [ob .next (.fut none) 1 false, ob (.par 0 .next) (.item (.val 1)) 3 false (some (false, .raised .runtimeError))]
+    = true := by decide
+-- a body with a marker payload is outside the statement: `spec` is false, the driver judges it by `outsideClause`
+example : spec [.valueEnd] [] = false ∧ specClause [.valueEnd] [] = "marker-payload" := by decide
+example : outsideClause (run (init [.value 1, .valueEnd, .await true]) [.next, .next, .take 3, .list, .next]) = "ok" := by
+  decide
 
 end AsynqModel.Generator
